@@ -4,9 +4,13 @@
 use rand::{rngs::StdRng, Rng};
 use tokio::io::{AsyncReadExt, AsyncWriteExt};
 use vcommon::{json, rng_for, Args, Report};
-use zksync_concurrency::{ctx, net, scope};
+use zksync_concurrency::{ctx, scope};
 use zksync_consensus_network::{testonly, verif, Config};
 use zksync_consensus_roles::{node, validator};
+
+/// set when a TCP connect / accept / preface step (the environment, not the handshake under test) failed in the current case
+static ENV_FAIL: std::sync::atomic::AtomicBool = std::sync::atomic::AtomicBool::new(false);
+fn env_fail<E>(_: E) { ENV_FAIL.store(true, std::sync::atomic::Ordering::SeqCst); }
 
 const TRANSCRIPTS: [&str; 10] = [
     "honest", "replayed-from-other-session", "relayed-by-mitm", "signed-by-other-key", "right-key-wrong-session-id", "right-key-truncated-session-id",
@@ -64,8 +68,8 @@ fn handshake_frame(w: &World, netk: Net, signer: usize, claimed: usize, sid: Vec
 /// The victim (index 0) accepts one inbound connection; the peer speaks `transcript` claiming to be identity 1
 /// (the adversary owns identity 2). Returns the identity the victim admitted, if any.
 async fn inbound_case(ctx: &ctx::Ctx, w: &mut World, netk: Net, transcript: &str, rng: &mut StdRng) -> Option<String> {
-    let addr = net::tcp::testonly::reserve_listener();
-    let mut listener = addr.bind(false).unwrap();
+    let (addr, mut listener) = crate::transport::listen_localhost();
+    let addr = &addr;
     let endpoint = if netk == Net::Gossip { verif::Endpoint::GossipNet } else { verif::Endpoint::ConsensusNet };
     let (cfgs, vkeys, genesis) = (&w.cfgs, &w.vkeys, w.genesis);
     let wref: &World = w;
@@ -73,8 +77,8 @@ async fn inbound_case(ctx: &ctx::Ctx, w: &mut World, netk: Net, transcript: &str
     let res: Result<Option<String>, ()> = scope::run!(ctx, |ctx, s| async {
         // victim
         let victim = s.spawn(async {
-            let tcp = verif::tcp_accept(ctx, &mut listener).await.map_err(|_| ())?;
-            let (mut stream, _ep) = verif::preface_accept(ctx, tcp).await.map_err(|_| ())?;
+            let tcp = verif::tcp_accept(ctx, &mut listener).await.map_err(env_fail)?;
+            let (mut stream, _ep) = verif::preface_accept(ctx, tcp).await.map_err(env_fail)?;
             let r = match netk {
                 Net::Gossip => verif::gossip_handshake_inbound(ctx, &cfgs[0], genesis, &mut stream).await.map(|k| format!("{k:?}")),
                 Net::Consensus => verif::consensus_handshake_inbound(ctx, &vkeys[0], genesis, &mut stream).await.map(|k| format!("{k:?}")),
@@ -82,7 +86,7 @@ async fn inbound_case(ctx: &ctx::Ctx, w: &mut World, netk: Net, transcript: &str
             Ok(r.ok())
         });
         // peer
-        let mut c = verif::preface_connect(ctx, *addr, endpoint).await.map_err(|_| ())?;
+        let mut c = verif::preface_connect(ctx, *addr, endpoint).await.map_err(env_fail)?;
         let sid = c.id();
         match transcript {
             "honest" => {
@@ -98,8 +102,8 @@ async fn inbound_case(ctx: &ctx::Ctx, w: &mut World, netk: Net, transcript: &str
             "relayed-by-mitm" => {
                 // the honest identity 1 dials the adversary (thinking it is somebody else); the adversary terminates that
                 // noise session and forwards the handshake frame verbatim on its own session with the victim
-                let addr2 = net::tcp::testonly::reserve_listener();
-                let mut l2 = addr2.bind(false).unwrap();
+                let (addr2, mut l2) = crate::transport::listen_localhost();
+                let addr2 = &addr2;
                 let frame: Result<Vec<u8>, ()> = scope::run!(ctx, |ctx, s2| async {
                     s2.spawn_bg(async {
                         // honest dialler (real outbound code), it will fail in the end - irrelevant
@@ -165,19 +169,19 @@ async fn inbound_case(ctx: &ctx::Ctx, w: &mut World, netk: Net, transcript: &str
 
 /// The victim (index 0) dials a peer expecting identity 1; the harness is the server and answers with `transcript`.
 async fn outbound_case(ctx: &ctx::Ctx, w: &World, netk: Net, transcript: &str) -> bool {
-    let addr = net::tcp::testonly::reserve_listener();
-    let mut listener = addr.bind(false).unwrap();
+    let (addr, mut listener) = crate::transport::listen_localhost();
+    let addr = &addr;
     let endpoint = if netk == Net::Gossip { verif::Endpoint::GossipNet } else { verif::Endpoint::ConsensusNet };
     let res: Result<bool, ()> = scope::run!(ctx, |ctx, s| async {
         let victim = s.spawn(async {
-            let mut st = verif::preface_connect(ctx, *addr, endpoint).await.map_err(|_| ())?;
+            let mut st = verif::preface_connect(ctx, *addr, endpoint).await.map_err(env_fail)?;
             Ok(match netk {
                 Net::Gossip => verif::gossip_handshake_outbound(ctx, &w.cfgs[0], w.genesis, &mut st, &w.cfgs[1].gossip.key.public()).await.is_ok(),
                 Net::Consensus => verif::consensus_handshake_outbound(ctx, &w.vkeys[0], w.genesis, &mut st, &w.vkeys[1].public()).await.is_ok(),
             })
         });
-        let tcp = verif::tcp_accept(ctx, &mut listener).await.map_err(|_| ())?;
-        let (mut m, _) = verif::preface_accept(ctx, tcp).await.map_err(|_| ())?;
+        let tcp = verif::tcp_accept(ctx, &mut listener).await.map_err(env_fail)?;
+        let (mut m, _) = verif::preface_accept(ctx, tcp).await.map_err(env_fail)?;
         let sid = m.id();
         let _ = recv_raw(&mut m).await;
         let f = match transcript {
@@ -207,11 +211,26 @@ pub fn run(args: &Args, rep: &mut Report) {
     let mut w = World { cfgs: testonly::new_configs(&mut rng, &setup, 0), vkeys: setup.validator_keys.clone(), genesis: setup.genesis_hash(), other_genesis: rng.gen(), recorded: vec![] };
     rt.block_on(async {
         let root = ctx::root();
+        let started = std::time::Instant::now();
+        let mut sessions = 0u64;
         for round in 0..rounds {
             if !rep.within_budget() { rep.count("stopped_by_budget"); break; }
+            // pace long runs: closed connections linger in TIME_WAIT for 60 s and the sandbox has ~28k ephemeral ports for all
+            // shards together, so each shard opens at most ~20 sessions per second
+            sessions += 34;
+            let min_ms = sessions * 1000 / 20;
+            let el = started.elapsed().as_millis() as u64;
+            if round > 40 && el < min_ms {
+                tokio::time::sleep(std::time::Duration::from_millis(min_ms - el)).await;
+            }
             for netk in [Net::Gossip, Net::Consensus] {
                 for t in TRANSCRIPTS {
+                    ENV_FAIL.store(false, std::sync::atomic::Ordering::SeqCst);
                     let admitted = inbound_case(&root, &mut w, netk, t, &mut rng).await;
+                    if admitted.is_none() && ENV_FAIL.load(std::sync::atomic::Ordering::SeqCst) {
+                        rep.count("sessions_lost_to_the_environment");
+                        continue;
+                    }
                     rep.evaluations += 1;
                     rep.count(&format!("inbound_{netk:?}_{t}"));
                     rep.distinct(vcommon::hash_of(&(args.shard, round, format!("{netk:?}"), t, "in")));
@@ -226,7 +245,12 @@ pub fn run(args: &Args, rep: &mut Report) {
                     }
                 }
                 for t in ["honest", "other-identity", "signed-by-other-key", "replayed-from-other-session", "wrong-genesis", "wrong-session-id"] {
+                    ENV_FAIL.store(false, std::sync::atomic::Ordering::SeqCst);
                     let ok = outbound_case(&root, &w, netk, t).await;
+                    if !ok && ENV_FAIL.load(std::sync::atomic::Ordering::SeqCst) {
+                        rep.count("sessions_lost_to_the_environment");
+                        continue;
+                    }
                     rep.evaluations += 1;
                     rep.count(&format!("outbound_{netk:?}_{t}"));
                     rep.distinct(vcommon::hash_of(&(args.shard, round, format!("{netk:?}"), t, "out")));
